@@ -48,6 +48,12 @@ CHECKS = {
         "Trusted: the recogniser in harness/src/model/num.rs (60 lines, unit-tested); representable = 96-bit mantissa and <= 28 decimals; `.5`-style literals are unspecified.",
         "4/C07",
     ),
+    "C08": (
+        "runtime monitor: exhaustive small expression trees + random larger ones through Ledger::eval, posting amount, cost, assertion, lot price and `okane primitive eval`, judged by an exact-rational three-valued reference evaluator",
+        "All 138,828 expressions with <= 3 leaves (6 literals x optional unary minus x 4 operators x 5 parenthesisation shapes) and 4*10^4 (quick) / 3*10^6 (thorough) random trees up to depth 4 / 8 leaves, with operators rendered with and without surrounding spaces, are evaluated by the real code in every position an expression can appear; values must equal exact rational arithmetic (left fold, precedence, commodity typing), ill-typed expressions must be rejected, the inferred sibling must be the negation. Exhaustive below 4 leaves, sampled above.",
+        "Trusted: harness/src/model/expr.rs (unit-tested on the precedence/associativity examples). number/commodity, commodity/commodity and one-nonzero-commodity-next-to-zero sums are unspecified. Comparison is exact unless an intermediate value is not a 96-bit/28-place decimal (then 1e-20 relative).",
+        "4/C08",
+    ),
 }
 
 NOT_APPLICABLE = []
